@@ -29,6 +29,7 @@ CT_OPS = [
     "ed_add", "ed_sub", "ed_compress", "ed_compress_sp1", "ed_to_montgomery", "ed_neg", "ed_double", "ed_ct_eq", "ed_mul_base", "ed_mul", "ed_mul_secret_point", "ed_mul_clamped", "ed_mul_base_clamped",
     "ed_multiscalar_1", "ed_multiscalar_2", "ed_multiscalar_3", "ed_multiscalar_n190", "ed_multiscalar_n500", "ed_multiscalar_n800", "ris_multiscalar_n190",
     "ed_table_radix16", "ed_table_radix32", "ed_table_radix64", "ed_table_radix128", "ed_table_radix256",
+    "ed_table_radix16_clamped", "ed_table_radix32_clamped", "ed_table_radix64_clamped", "ed_table_radix128_clamped", "ed_table_radix256_clamped",
     "mont_mul_clamped", "mont_mul", "mont_mul_bits_be", "x25519", "x25519_public_key", "x25519_dh",
     "ris_compress", "ris_from_uniform_bytes", "sig_from_bytes", "sig_sign", "sig_sign_prehashed",
 ]
@@ -145,7 +146,8 @@ def run(pid, tier, log, scratch):
     if tier == "quick":
         # every operation of the list on the default build (except the three slowest table radices), a thinner
         # secret alphabet than the thorough tier; the core operations again on the serial and IFMA builds
-        plan = [("simd", True, [o for o in CT_OPS if o not in TABLE_OPS[2:] and o not in BIG_OPS[1:]]), ("serial64", True, QUICK_OPS[:7]), ("avx512", True, ["ed_mul", "ed_mul_secret_point", "ed_multiscalar_2"]),
+        slow_tables = [o for o in TABLE_OPS if any(r in o for r in ("radix64", "radix128", "radix256"))]
+        plan = [("simd", True, [o for o in CT_OPS if o not in slow_tables and o not in BIG_OPS[1:]]), ("serial64", True, QUICK_OPS[:7]), ("avx512", True, ["ed_mul", "ed_mul_secret_point", "ed_multiscalar_2"]),
                 # the 32-bit and fiat backends have their own scalar and field code: every scalar kernel plus one
                 # operation per point-arithmetic family
                 ("serial32", True, SCALAR_OPS + ["ed_mul", "mont_mul", "ed_compress", "sig_sign"]),
@@ -153,7 +155,7 @@ def run(pid, tier, log, scratch):
                 ("fiat32", True, ["sc_mul", "sc_sub", "ed_mul", "mont_mul"])]
     else:
         plan = [("simd", True, CT_OPS), ("simd", False, [o for o in CT_OPS if o not in TABLE_OPS and o not in BIG_OPS]), ("serial64", True, [o for o in CT_OPS if o not in BIG_OPS[1:]]),
-                ("serial32", True, [o for o in CT_OPS if o not in TABLE_OPS[1:] and o not in BIG_OPS]), ("fiat64", True, QUICK_OPS + [o for o in SCALAR_OPS if o not in QUICK_OPS]), ("fiat32", True, QUICK_OPS + [o for o in SCALAR_OPS if o not in QUICK_OPS]),
+                ("serial32", True, [o for o in CT_OPS if (o not in TABLE_OPS or "radix16" in o) and o not in BIG_OPS]), ("fiat64", True, QUICK_OPS + [o for o in SCALAR_OPS if o not in QUICK_OPS]), ("fiat32", True, QUICK_OPS + [o for o in SCALAR_OPS if o not in QUICK_OPS]),
                 ("avx512", True, IFMA_OPS), ("avx512", False, IFMA_OPS[:3])]
     secs = secrets(tier)
     sdir = os.path.join(scratch, "secrets")
@@ -172,7 +174,10 @@ def run(pid, tier, log, scratch):
     def sel(op):
         if op in BIG_OPS:
             return [0, 2]  # the all-zero secret and the counting pattern
-        return range(len(secs)) if op not in TABLE_OPS else range(min(len(secs), 8))
+        if op in TABLE_OPS:
+            # table construction under the tracer dominates: three secrets in the quick tier, eight in the thorough one
+            return range(min(len(secs), 3 if tier == "quick" else 8))
+        return range(len(secs))
     jobs = []
     for cfg, tables, ops in plan:
         for op in ops + CONTROLS:
